@@ -23,7 +23,8 @@ RULE = ("histories from a Hypothesis rule-based state machine owning one shared 
         "probe (repr of the AST, or exception class + message) equals a fresh pair's. Configurations: child "
         "processes with PYTHONHASHSEED in {0,1,2,3,12345} (thorough: 9 values) x import orders {grammar, sql, "
         "rewrite first} hashing the outcomes of a generated corpus. Non-trivial: >= 3 steps with >= 1 raising "
-        "step before the probe; distinct by step sequence.")
+        "step before the probe; distinct by step sequence."
+        " Reference outcomes for the fixed pools and the probe come from pristine child processes (one per string); error inputs include truncated prefixes of valid filters and unterminated literals of every quoted kind; import orders also include the sqlalchemy and django backends; the corpus contains every built-in with 0..4 arguments.")
 ASSUMPTIONS = ["interleavings are those a single thread can produce (alternating lazy token pulls); pre-emptive "
                "thread schedules are not owned by the harness"]
 
